@@ -306,18 +306,37 @@ Proof.
   - replace (2 ^ p - ii) with 0 by lia. reflexivity.
 Qed.
 
-(* Get's loop as srcgen wraps it (i starts at 1): the model's scan over the len - 1
-   slots after the primary one *)
-Lemma gen_get_run p : p <= 62 -> forall fuel d k idx sz ga hz zv,
-  length d = 2 ^ p -> idx < 2 ^ p -> k <> 0%N -> 2 ^ p <= fuel ->
-  let r := go_UInt64Map_Get_loop1_run fuel (gomap d sz ga hz zv) k (Z.of_nat idx) in
-  match scan (stop_key k) (2 ^ p - 1) d (2 ^ p) (nxt (2 ^ p) idx) with
-  | Some x => fst r = GoRet (if N.eqb (skey d x) k then (snd (sl d x), true) else (0%N, false))
-  | None => fst r = GoNext
-  end.
+Lemma scan_step stop n d m h : n <> 0 ->
+  scan stop n d m h = if stop (sl d h) then Some h else scan stop (n - 1) d m (nxt m h).
+Proof. intros H. destruct n; [lia|]. simpl. rewrite Nat.sub_0_r. reflexivity. Qed.
+(* Get as a whole (zero key out of band, primary slot, then the probe loop) is the model's tget *)
+Lemma gen_get p : p <= 62 -> forall fuel t k, length (t_data t) = 2 ^ p -> 2 ^ p < fuel ->
+  go_UInt64Map_Get fuel (gotab p t) k =
+  Some (match tget go_mix t k with Some v => (v, true) | None => (0%N, false) end).
 Proof.
-  intros Hp fuel d k idx sz ga hz zv Hlen Hidx Hk Hf. unfold go_UInt64Map_Get_loop1_run.
-  apply (gen_get_loop p Hp fuel fuel d k idx 1 sz ga hz zv Hlen Hidx Hk). lia.
+  intros Hp fuel t k Hlen Hf. unfold go_UInt64Map_Get, tget.
+  assert (Hn0 : 0 < 2 ^ p) by (pose proof (Nat.pow_nonzero 2 p); lia).
+  destruct (N.eqb_spec k 0) as [->|Hk].
+  - unfold gotab, gom, zhas, zval. cbn [T_UInt64Map_hasZeroKey T_UInt64Map_zeroVal].
+    destruct (t_zero t); reflexivity.
+  - rewrite (gen_primaryIndex p (gotab p t) k Hp eq_refl).
+    set (h := hidx go_mix (2 ^ p) k).
+    assert (Hh : h < 2 ^ p) by (apply Proofs_cyc.hidx_lt; exact Hn0).
+    unfold gotab at 1 2 3 4. unfold gom. cbn [T_UInt64Map_data].
+    rewrite !rep_idx. change (T_Pair_Key (rep_slot (sl (t_data t) h))) with (fst (sl (t_data t) h)).
+    change (T_Pair_Value (rep_slot (sl (t_data t) h))) with (snd (sl (t_data t) h)).
+    unfold probe. rewrite Hlen. fold h.
+    rewrite scan_step by lia. unfold stop_key at 1. unfold skey.
+    destruct (N.eqb (fst (sl (t_data t) h)) k) eqn:E1; [cbn [orb]; rewrite ?E1; reflexivity|].
+    destruct (N.eqb (fst (sl (t_data t) h)) 0) eqn:E2; [cbn [orb]; rewrite ?E1; reflexivity|]. cbn [orb].
+    pose proof (gen_get_loop p Hp fuel fuel (t_data t) k h 1 (t_size t) (t_growAt t) (zhas t) (zval t) Hlen Hh Hk ltac:(lia)) as G.
+    cbv zeta in G. rewrite (gom_gomap p _ _ _ _ _ Hlen) in G. unfold gom in G.
+    change (Z.of_nat 1) with 1%Z in G. unfold gotab, gom.
+    match goal with |- context [go_UInt64Map_Get_loop1 ?a ?b ?c ?d ?e ?f] =>
+      destruct (go_UInt64Map_Get_loop1 a b c d e f) as [c0 st] end.
+    destruct (scan (stop_key k) (2 ^ p - 1) (t_data t) (2 ^ p) (nxt (2 ^ p) h)) as [x|]; simpl in G; subst c0.
+    + unfold skey. destruct (N.eqb (fst (sl (t_data t) x)) k); reflexivity.
+    + destruct st as [[[a b] c] d0]. reflexivity.
 Qed.
 
 
@@ -371,9 +390,6 @@ Proof.
 Qed.
 
 (* ---- Del as a whole ---- *)
-Lemma scan_step stop n d m h : n <> 0 ->
-  scan stop n d m h = if stop (sl d h) then Some h else scan stop (n - 1) d m (nxt m h).
-Proof. intros H. destruct n; [lia|]. simpl. rewrite Nat.sub_0_r. reflexivity. Qed.
 Lemma gen_del_loop p : p <= 62 -> forall lf fuel t k idx ii,
   length (t_data t) = 2 ^ p -> idx < 2 ^ p -> k <> 0%N -> 2 ^ p <= fuel -> 2 ^ p - ii < lf ->
   let r := go_UInt64Map_Del_loop1 fuel lf (gotab p t) k (Z.of_nat idx) (Z.of_nat ii) in
